@@ -18,6 +18,7 @@ SCRIPTS = {
     'S_offR1': ['off', 'a', 'R1'],
     'S_emitB': ['emit', 'b', 7],            # cross-name emit during delivery
     'S_emitA': ['emit', 'a', 8],            # same-name re-entrant emit, guarded to depth 2
+    'S_raise': ['raise'],                   # a listener that fails: the emit is aborted, the caller catches the exception
 }
 CTX = {'k': 1}
 RETURNS = {'R1': False, 'R2': 0, 'F0': '', 'M': False, 'S_onB': False, 'S_emitB': True}
@@ -81,6 +82,10 @@ GOPS = [['emit', 'a', 1], ['emit', 'b', 1],
         ['on', 'a', 'S_onA', None], ['once', 'a', 'S_offR1', None], ['on', 'a', 'S_emitB', None]]
 
 
+class ListenerFailed(Exception):
+    pass
+
+
 class ModelEmitter(object):
     """Executable reference model of the statement."""
 
@@ -102,21 +107,29 @@ class ModelEmitter(object):
         return self
 
     def emit(self, name, *args):
-        # a once-listener is called on the FIRST emit that finds it subscribed, with that emit's arguments: the emit takes its
-        # once-listeners off the list before it delivers anything, so that an emit of the same name from inside an earlier
+        # a once-listener is called on the FIRST emit that finds it subscribed, with that emit's arguments: the emit claims the
+        # once-listeners of its snapshot before it delivers anything, so that an emit of the same name from inside an earlier
         # listener does not deliver them as well - or instead (an earlier version of this model consumed a once-listener when it
-        # was called, as the implementation did: the nested emit then called it with ITS arguments and the first emit not at all)
+        # was called, as the implementation did: the nested emit then called it with ITS arguments and the first emit not at all).
+        # A claimed once-listener leaves the list when it is called; when a listener in front of it fails, the emit ends and the
+        # claim is given up: it was not called, so it is still subscribed, in its old place.
         snap = list(self.e.get(name, []))
-        mine = set()
-        for r in snap:
-            if r['once'] and not r['fired']:
-                r['fired'] = True
-                mine.add(id(r))
-                self.e[name] = [x for x in self.e.get(name, []) if x is not r]
-        for r in snap:
-            if r['once'] and id(r) not in mine:
-                continue
-            r['cb'](*args, **r['ctx'])
+        mine = [r for r in snap if r['once'] and not r['fired']]
+        for r in mine:
+            r['fired'] = True
+        called = set()
+        try:
+            for r in snap:
+                if r['once']:
+                    if not any(r is m for m in mine):
+                        continue
+                    self.e[name] = [x for x in self.e.get(name, []) if x is not r]
+                    called.add(id(r))
+                r['cb'](*args, **r['ctx'])
+        finally:
+            for r in mine:
+                if id(r) not in called:
+                    r['fired'] = False
         return self
 
     def canon(self, names_of):
@@ -214,10 +227,17 @@ class World(object):
 
     def apply(self, op, self_cb=None):
         kind = op[0]
+        if kind == 'raise':
+            self.log.append(['#', 'raising'])
+            raise ListenerFailed()
         if kind == 'emit':
             self.depth += 1
             try:
                 self.em.emit(op[1], op[2])
+            except ListenerFailed:
+                # whoever emitted catches the failure of a listener (as Parser does for its events): the emit is over, listeners
+                # behind the failing one were not called - and a once-listener among them is still subscribed
+                self.log.append(['#', 'caught'])
             finally:
                 self.depth -= 1
         elif kind in ('on', 'once'):
